@@ -166,8 +166,16 @@ def run_property(prop, tier, seed, replay=None, only_case=None):
         m = Machine(c.label)
         try:
             fs = c.fn(m) or []
-        except Exception as e:  # harness bug, not a verdict
-            raise Infra(f"case {c.label} crashed in the harness: {traceback.format_exc()[-1500:]}")
+        except Exception as e:
+            # The case's oracle could not be evaluated on what the implementation returned (typically a result of
+            # another shape or type than documented, e.g. one value where one per component is due).  No case crashes on
+            # the tree the checks were built against, so this is reported as a failure of the property on this case's
+            # input (the program executed so far is kept and still compared with the model), not swallowed.
+            tb = traceback.format_exc()
+            if isinstance(e, (Infra, MemoryError, KeyboardInterrupt)) or "props" not in tb:
+                raise Infra(f"case {c.label} crashed in the harness: {tb[-1500:]}")
+            fs = [failure(prop, "oracle-not-evaluable", "the property oracle could not be evaluated on the implementation's "
+                          "result (unexpected shape/type): " + tb.strip().split("\n")[-1][:300], got=tb[-1500:])]
         m.dumpall()
         machines.append((c, m))
         for f in fs:
